@@ -263,6 +263,8 @@ func zzH_STRs() {
 	if ending == 0 {
 		m.deliver(zzRequest(5, zzUpgBytes(zzUpgCloseStream), "", nil))
 		vQuiesce()
+		// the close-stream request alone (the connection is still up) releases the handler
+		vAssert(handlerDone, "handler-returns-after-stream-close")
 	}
 	m.fail(io.EOF)
 	vQuiesce()
